@@ -23,7 +23,7 @@ import (
 var (
 	Env      EnvType
 	seedVals []MalType
-	seedSrc  = []string{"[1 2 3]", "(1 2 3)", "{:a 1 :b 2}", "#{:a :b}", "[[1 2 3] {:a [1 2 3]}]"}
+	seedSrc  = []string{"[1 2 3]", "(1 2 3)", "{:a 1 :b 2}", "#{:a :b}", "[[1 2 3] {:a [1 2 3]}]", "{}", "#{}"}
 )
 
 func builtin(name string) Func {
@@ -53,6 +53,13 @@ func Setup() {
 			panic(err)
 		}
 		seedVals = append(seedVals, v)
+	}
+	// empty collections produced by builtins (their representation may differ from literals)
+	for _, mk := range [][]MalType{{Symbol{Val: "hash-map"}}, {Symbol{Val: "dissoc"}, seedVals[2], NewKeyword("a"), NewKeyword("b")}, {Symbol{Val: "set"}, List{}}} {
+		f, _ := Env.Get(mk[0].(Symbol))
+		if v, err := f.(Func).Fn(context.Background(), mk[1:]); err == nil {
+			seedVals = append(seedVals, v)
+		}
 	}
 	// a vector with spare capacity produced by a builtin
 	v, err := call("conj", seedVals[0], 4, 5)
@@ -175,11 +182,14 @@ func (p *pool) check(step string) {
 // the first nShare operations are the ones that hand out (parts of) their
 // argument's backing array; parameter oplo/ophi select a sub-range
 var ops = []string{
-	"conj1", "conj2", "concat2", "concat3", "cons", "subvec", "rest", "vec", "seq", "apply-conj", "apply-concat",
+	"conj1", "conj2", "concat2", "concat3", "concat-empty-first", "concat-vec-first", "cons", "subvec", "rest", "vec", "seq", "apply-conj", "apply-concat",
 	"qq-splice-first", "qq-splice-two", "qq-vector", "with-meta",
 	"assoc", "dissoc", "take", "drop", "take-last", "drop-last", "merge", "rename-keys", "assoc-in", "update", "update-in",
 	"map", "first", "nth",
 }
+
+// operations that copy-before-write maps and sets
+var mapOps = []string{"conj1", "conj2", "assoc", "dissoc", "merge", "rename-keys", "assoc-in", "update", "update-in", "with-meta", "vec", "seq"}
 
 var fnConjX = Func{Fn: func(ctx context.Context, a []MalType) (MalType, error) {
 	// (fn [c] (conj c 99)) as a Go function value
@@ -197,7 +207,12 @@ func key(tag string) string {
 func step(p *pool, tag string) (MalType, string, bool) {
 	lo := vrt.Param("oplo", 0)
 	hi := vrt.Param("ophi", len(ops))
-	op := ops[lo+vrt.Concrete(vrt.Choice(tag+"/op", hi-lo))]
+	var op string
+	if vrt.Param("mapops", 0) == 1 {
+		op = mapOps[vrt.Concrete(vrt.Choice(tag+"/op", len(mapOps)))]
+	} else {
+		op = ops[lo+vrt.Concrete(vrt.Choice(tag+"/op", hi-lo))]
+	}
 	x := vrt.Int(tag + "/x")
 	y := vrt.Int(tag + "/y")
 	var r MalType
@@ -211,6 +226,11 @@ func step(p *pool, tag string) (MalType, string, bool) {
 		r, err = call("concat", p.pick(tag+"/a"), p.pick(tag+"/b"))
 	case "concat3":
 		r, err = call("concat", p.pick(tag+"/a"), List{Val: []MalType{x}}, p.pick(tag+"/b"))
+	case "concat-empty-first":
+		// leading empty sequences, then a pooled value, then fresh elements
+		r, err = call("concat", List{Val: []MalType{}}, p.pick(tag+"/a"), List{Val: []MalType{x}})
+	case "concat-vec-first":
+		r, err = call("concat", Vector{}, List{}, p.pick(tag+"/a"), Vector{Val: []MalType{x, y}})
 	case "cons":
 		r, err = call("cons", x, p.pick(tag+"/a"))
 	case "assoc":
@@ -294,8 +314,11 @@ func step(p *pool, tag string) (MalType, string, bool) {
 // Harness_history: L steps, all earlier values re-inspected after every step.
 func Harness_history() {
 	p := &pool{}
+	mask := vrt.Param("seedmask", (1<<len(seedVals))-1)
 	for i, v := range seedVals {
-		p.add(v, "seed"+string(rune('0'+i))+" "+seedSrc0(i))
+		if mask&(1<<i) != 0 {
+			p.add(v, "seed"+string(rune('a'+i))+" "+seedSrc0(i))
+		}
 	}
 	L := vrt.Param("steps", 2)
 	hist := ""
@@ -319,5 +342,13 @@ func seedSrc0(i int) string {
 	if i < len(seedSrc) {
 		return seedSrc[i]
 	}
-	return "(conj [1 2 3] 4 5)"
+	extra := []string{"(hash-map)", "(dissoc {:a 1 :b 2} :a :b)", "(set ())", "(conj [1 2 3] 4 5)"}
+	if i-len(seedSrc) < len(extra) {
+		return extra[i-len(seedSrc)]
+	}
+	return "?"
 }
+
+// Harness_maps: the same history check over the map / set operations and the map / set seeds
+// (literal and builtin-made empty ones included).
+func Harness_maps() { Harness_history() }
